@@ -204,6 +204,25 @@ func applyMod(lm message.Message, p *codec.Packet, m Mod) (ok bool, err error) {
 				return true, err
 			}
 			p.Topics, p.QoSs = append(p.Topics, m.B), append(p.QoSs, byte(m.V%3))
+		case "rmtopic":
+			// RemoveTopic of a listed filter (the first entry that equals it) or of one that is not listed
+			if len(p.Topics) < 2 {
+				return false, nil // a SUBSCRIBE keeps at least one filter
+			}
+			if m.V%5 == 0 {
+				c.RemoveTopic([]byte("not/listed/\x01"))
+				return true, nil
+			}
+			i := m.V % len(p.Topics)
+			for j := range p.Topics {
+				if bytes.Equal(p.Topics[j], p.Topics[i]) {
+					i = j
+					break
+				}
+			}
+			c.RemoveTopic(append([]byte(nil), p.Topics[i]...))
+			p.Topics = append(append([][]byte(nil), p.Topics[:i]...), p.Topics[i+1:]...)
+			p.QoSs = append(append([]byte(nil), p.QoSs[:i]...), p.QoSs[i+1:]...)
 		case "pid":
 			c.SetPacketID(uint16(m.V%65535) + 1)
 			p.PacketID = uint16(m.V%65535) + 1
@@ -224,6 +243,23 @@ func applyMod(lm message.Message, p *codec.Packet, m Mod) (ok bool, err error) {
 			}
 			c.AddTopic(append([]byte(nil), m.B...))
 			p.Topics = append(p.Topics, m.B)
+		case "rmtopic":
+			if len(p.Topics) < 2 {
+				return false, nil // an UNSUBSCRIBE keeps at least one filter
+			}
+			if m.V%5 == 0 {
+				c.RemoveTopic([]byte("not/listed/\x01"))
+				return true, nil
+			}
+			i := m.V % len(p.Topics)
+			for j := range p.Topics {
+				if bytes.Equal(p.Topics[j], p.Topics[i]) {
+					i = j
+					break
+				}
+			}
+			c.RemoveTopic(append([]byte(nil), p.Topics[i]...))
+			p.Topics = append(append([][]byte(nil), p.Topics[:i]...), p.Topics[i+1:]...)
 		case "pid":
 			c.SetPacketID(uint16(m.V%65535) + 1)
 			p.PacketID = uint16(m.V%65535) + 1
@@ -361,8 +397,8 @@ func TestC03Modify(t *testing.T) {
 		codec.PUBLISH:     {"qos", "qos", "retain", "dup", "pid", "topic", "payload"},
 		codec.CONNECT:     {"keepalive", "clean", "clientid", "willqos", "willretain", "username", "password", "willmsg"},
 		codec.CONNACK:     {"sp", "code"},
-		codec.SUBSCRIBE:   {"addtopic", "pid", "requalify", "requalify"},
-		codec.UNSUBSCRIBE: {"addtopic", "pid"},
+		codec.SUBSCRIBE:   {"addtopic", "pid", "requalify", "requalify", "rmtopic"},
+		codec.UNSUBSCRIBE: {"addtopic", "pid", "rmtopic", "rmtopic"},
 		codec.SUBACK:      {"addcode", "pid"},
 	}
 	rapid.Check(t, func(t *rapid.T) {
